@@ -90,4 +90,36 @@ mod verif_indicators {
 			k += 1;
 		}
 	}
+
+	// ---- C08 at indicator level: an indicator initialised with a candle and fed that same candle returns constant values from the first step on ----
+	#[kani::proof]
+	#[kani::unwind(8)]
+	fn vk_trix_constant_candle() {
+		use crate::indicators::Trix;
+		let c = Candle { open: 100.0, high: 104.0, low: 96.0, close: 102.0, volume: 10.0 };
+		let mut inst = Trix::default().init(&c).unwrap();
+		let first = inst.next(&c);
+		let mut k = 0;
+		while k < 2 {
+			let r = inst.next(&c);
+			assert!(r.value(0).to_bits() == first.value(0).to_bits());
+			assert!(r.value(1).to_bits() == first.value(1).to_bits());
+			k += 1;
+		}
+	}
+	#[kani::proof]
+	#[kani::unwind(16)]
+	fn vk_rvi_constant_candle() {
+		use crate::indicators::RelativeVigorIndex;
+		let c = Candle { open: 100.0, high: 104.0, low: 96.0, close: 102.0, volume: 10.0 };
+		let mut inst = RelativeVigorIndex::default().init(&c).unwrap();
+		let first = inst.next(&c);
+		let mut k = 0;
+		while k < 2 {
+			let r = inst.next(&c);
+			assert!(r.value(0).to_bits() == first.value(0).to_bits());
+			assert!(r.value(1).to_bits() == first.value(1).to_bits());
+			k += 1;
+		}
+	}
 }
